@@ -271,6 +271,9 @@ func OpsScript(ops []StateOp) string {
 // CodeText renders the code block of a code-carrying node: one call into the recorder
 // with everything the block can see.
 func CodeText(g *Grammar, e *Expr, o PrintOpts) string {
+	if e.Code != "" {
+		return e.Code
+	}
 	if o.StubCode {
 		switch e.K {
 		case KAction:
